@@ -17,8 +17,8 @@ from __future__ import annotations
 import numpy as np
 from numpy.fft import fft as _fft, ifft as _ifft, fftfreq as _fftfreq
 
-FS = 160e9          # sampling rate of the grid in force for every C08 case (gv(sps=16, R=10e9))
-SPS = 16
+FS = 160e9          # sampling rate of the baseline grid gv(sps=16, R=10e9); other grids pass their own gv.fs
+SPS = 16            # samples per pulse/bit slot of the field alphabet (a per-sample layout, independent of gv.sps)
 WORD = (1, 0, 1, 1, 0, 1, 0, 0, 1, 1, 1, 0, 0, 1, 0, 1)   # NRZ word (truncated to N/SPS slots)
 
 
@@ -30,41 +30,51 @@ def _circ_gauss_filter(x, sigma_samples):
     return _ifft(_fft(x) * H)
 
 
-def make_field(kind, N, P, seed):
-    """one polarisation row, complex128, max |x|^2 == P exactly up to one rounding"""
+def make_field(kind, N, P, seed, real=False):
+    """one polarisation row, complex128, max |x|^2 == P exactly up to one rounding (all zeros when P == 0 or when
+    the shape itself is empty: `lead0` with N <= 2).  real=True: the real part of the shape (for real/integer dtypes)."""
     n = np.arange(N)
-    nslots = N // SPS
+    slot = min(SPS, N)                                # fields shorter than one slot: one pulse / one bit over N samples
+    nslots = max(1, N // SPS)
     if kind in ('gauss', 'lead0'):
         # Gaussian pulse train: one pulse per slot, alternating amplitude 1 / 0.6, sigma = T/6
         x = np.zeros(N, dtype=complex)
         for k in range(nslots):
-            c = k * SPS + SPS / 2
+            c = k * slot + slot / 2
             d = (n - c + N / 2) % N - N / 2          # periodic distance
-            x += (1.0 if k % 2 == 0 else 0.6) * np.exp(-0.5 * (d / (SPS / 6)) ** 2)
+            x += (1.0 if k % 2 == 0 else 0.6) * np.exp(-0.5 * (d / (slot / 6)) ** 2)
         if kind == 'lead0':
             x[:2] = 0.0                               # the field whose first two samples are zero
     elif kind == 'nrz':
         bits = np.array(WORD[:nslots], dtype=float)
         lv = np.where(bits > 0, 1.0, 0.3)             # finite extinction: no sample is exactly zero
-        x = _circ_gauss_filter(np.resize(np.repeat(lv, SPS), N).astype(complex), 2.0)   # np.resize: cyclic fill when SPS does not divide N
+        x = _circ_gauss_filter(np.resize(np.repeat(lv, slot), N).astype(complex), 2.0)   # np.resize: cyclic fill when SPS does not divide N
         x = x.real.astype(complex)
-    elif kind == 'rand':
-        rs = np.random.RandomState((int(seed) * 1000003 + N) % (2 ** 31 - 1))
+    elif kind in ('rand', 'white'):
+        rs = np.random.RandomState((int(seed) * 1000003 + N + (7919 if kind == 'white' else 0)) % (2 ** 31 - 1))
         g = rs.standard_normal(N) + 1j * rs.standard_normal(N)
-        x = _circ_gauss_filter(g, 3.0)                # band-limited complex Gaussian field
+        # rand: band-limited complex Gaussian field; white: every DFT bin populated, the Nyquist bin of an even N included
+        x = _circ_gauss_filter(g, 3.0) if kind == 'rand' else g
     elif kind == 'cw':
         x = np.ones(N, dtype=complex)
+    elif kind == 'dcr':
+        # large DC level with a small (1e-3) complex ripple at two tones
+        x = 1.0 + 1e-3 * (np.cos(2 * np.pi * 3 * n / N) + 1j * np.sin(2 * np.pi * 5 * n / N))
     else:
         raise ValueError(kind)
-    x = x * np.sqrt(P / np.max(np.abs(x) ** 2))
-    return x
+    if real:
+        x = x.real.astype(complex)
+    m = np.max(np.abs(x) ** 2)
+    if m == 0:
+        return x
+    return x * np.sqrt(P / m)
 
 
-def omega(N):
+def omega(N, fs=FS):
     """rad/ps, as the library builds it (2*pi*fftfreq(N)*fs*1e-12); written independently"""
     k = np.arange(N)
     k = np.where(k < (N + 1) // 2, k, k - N)
-    return 2 * np.pi * k * (FS / N) * 1e-12
+    return 2 * np.pi * k * (fs / N) * 1e-12
 
 
 # ------------------------------------------------------------------------- solver
@@ -83,10 +93,13 @@ def _strang(x, Dop, g, L, n, track=False):
     return (A, pk * h) if track else A
 
 
-def nlse_ref(x, L, a_lin, b2, b3, g, tol=1e-7, nmax=1 << 17):
-    """solution of (*) at z = L for the row x.  a_lin in 1/km (power).  Returns (A_L, info)."""
+def nlse_ref(x, L, a_lin, b2, b3, g, tol=1e-7, nmax=1 << 17, fs=FS):
+    """solution of (*) at z = L for the row x on the grid of sampling rate fs.  a_lin in 1/km (power).
+    Returns (A_L, info)."""
     N = x.size
-    w = omega(N)
+    w = omega(N, fs)
+    if L == 0:
+        return x.copy(), {'n': 0, 'conv': True, 'est': 0.0, 'pint': 0.0}
     Dop = -a_lin / 2 - 0.5j * b2 * w ** 2 - (1j / 6) * b3 * w ** 3
     if g == 0 or not np.any(x):
         return _ifft(np.exp(Dop * L) * _fft(x)), {'n': 0, 'conv': True, 'est': 0.0, 'pint': float(np.max(np.abs(x) ** 2)) * L}
@@ -112,12 +125,12 @@ def nlse_ref(x, L, a_lin, b2, b3, g, tol=1e-7, nmax=1 << 17):
         n *= 2
 
 
-def nlse_ref_dop853(x, L, a_lin, b2, b3, g, rtol=1e-11):
+def nlse_ref_dop853(x, L, a_lin, b2, b3, g, rtol=1e-11, fs=FS):
     """second, unrelated integrator (interaction picture + scipy DOP853); only used by the
     reference self-check"""
     from scipy.integrate import solve_ivp
     N = x.size
-    w = omega(N)
+    w = omega(N, fs)
     Dd = -0.5j * b2 * w ** 2 - (1j / 6) * b3 * w ** 3          # dispersive part only (unitary)
 
     def rhs(z, v):
